@@ -58,6 +58,14 @@ func (p *ProgGen) stmt(d int) string {
 	case 4:
 		return "echo " + p.simple()
 	case 5:
+		switch r.Intn(4) {
+		case 0:
+			return "f(" + p.E() + ", " + p.simple() + ", xs...)"
+		case 1:
+			return "y = append(ys, " + p.simple() + ", " + p.simple() + ", " + p.simple() + ", zs...)"
+		case 2:
+			return "g(xs...)"
+		}
 		return "f(" + p.E() + ")"
 	case 6:
 		return "x = " + p.E() + "!"
